@@ -252,3 +252,18 @@ Definition signalledIV (p : protection) : bytes := if p_scheme p =? 1 then padIV
 Definition fragmentIV (p : protection) : res bytes :=
   let iv := padIV (p_iv p) in
   if lenZ iv =? 16 then Ok iv else Err "iv must be 16 bytes".
+
+(** [genLaURL]: [cfg.Host + strings.Join(cfg.URLParts[:cfg.URLContentIdx+1], "/") + "/eccp.json"] - the
+    licence URL announced in the MPD keeps the whole configuration part of the request URL and the
+    first path element of the asset. *)
+Fixpoint joinSlash (l : list bytes) : bytes :=
+  match l with
+  | [] => []
+  | [x] => x
+  | x :: r => x ++ [47] ++ joinSlash r
+  end.
+
+Definition laURLSuffix : bytes := [47; 101; 99; 99; 112; 46; 106; 115; 111; 110].   (* "/eccp.json" *)
+
+Definition genLaURL (host : bytes) (urlParts : list bytes) (contentIdx : Z) : bytes :=
+  host ++ joinSlash (takeZ (contentIdx + 1) urlParts) ++ laURLSuffix.
